@@ -366,6 +366,16 @@ structure Saved where
   portable : Bool
   deriving Repr
 
+/-- What a `SavedFd` of `RedirGuard` stands for when the redirected descriptor is standard input: the
+    open file description descriptor 0 referred to when `perform` saved it (`dup` to a descriptor ≥ 10).
+    A description is identified by what reading from it delivers: the script descriptor itself
+    (`shared`), or a stream of its own with its offset. -/
+structure SavedIn where
+  shared : Bool
+  data : List Byte
+  pos : Nat
+  deriving Repr, DecidableEq
+
 /-- continuation items -/
 inductive K where
   | cmd (c : Cmd)
@@ -375,6 +385,7 @@ inductive K where
   | loopBack (untl : Bool) (cond body : List Cmd)
   | restore (s : Saved)
   | negK                                    -- after the command of `! command`
+  | undo (saved : List SavedIn)             -- `RedirGuard::undo_redirs` (also run by `Drop`)
   | src (text : List Byte) (echoes executed : Bool)   -- a nested read-eval loop (`eval`, `.`): what is left of its input
   deriving Repr
 
@@ -507,7 +518,7 @@ def echoOf (s : State) (text : List Byte) : List Byte :=
   -- what is printed is the `String` the reader returned (`from_utf8_lossy` of the bytes)
   if s.verbose && s.fdFed then s.echo ++ toBytes (toChars text) else s.echo
 
-/-- the files the scripts may read with the `.` built-in (the harness creates the same files) -/
+/-- the files the scripts may read with the `.` built-in or `<path` (the harness creates the same files) -/
 def dotFile (path : String) : Option (List Byte) :=
   if path == "/d1" then some "probe D1\nread vd\nprobe D1b \"$vd\"\n".toUTF8.toList
   else if path == "/d2" then some "alias a3='probe fromdot'\nset -o portable\n".toUTF8.toList
@@ -515,6 +526,8 @@ def dotFile (path : String) : Option (List Byte) :=
   else if path == "/d4" then some "probe D4 'multi\nline'\ncat <<E\nh dot é\nE\n".toUTF8.toList
   else if path == "/d5" then some []
   else if path == "/d6" then some "st 3".toUTF8.toList
+  else if path == "/r1" then some "r1 one\nr1 two é\n".toUTF8.toList
+  else if path == "/r2" then some "probe FROMR2 a\nprobe FROMR2 b\n".toUTF8.toList
   else none
 
 /-- `eval` and `.`: the commands come from another source, read by a nested read-eval loop
@@ -531,6 +544,44 @@ def unwind : List K → Option (List K)
   | [] => none
   | .restore sv :: k => some (.restore sv :: k)
   | _ :: k => unwind k
+
+/-- what is still done on the way there: every `RedirGuard` that goes out of scope undoes its
+    redirections (`impl Drop for RedirGuard`); everything else is abandoned -/
+def dropGuards : List K → List K
+  | [] => []
+  | .restore sv :: k => .restore sv :: k
+  | .undo saved :: k => .undo saved :: dropGuards k
+  | _ :: k => dropGuards k
+
+/-! ### Redirections of standard input (`yash-semantics/src/redir.rs  RedirGuard`) -/
+
+/-- the open file description standard input refers to -/
+def stdinDesc (s : State) : SavedIn := { shared := s.shared, data := s.data, pos := s.pos }
+
+/-- descriptor 0 made to refer to the description `d` (`dup2(_, 0)`) -/
+def setDesc (s : State) (d : SavedIn) : State := { s with shared := d.shared, data := d.data, pos := d.pos }
+
+/-- what a redirection opens: the contents of the here-document (`here_doc::open_fd`: a temporary file
+    filled with the contents and rewound) or of the file; `none` = the file cannot be opened -/
+def rdContent : Rd → Option (List Byte)
+  | .here body => some (toBytes body)
+  | .file path => dotFile (String.ofList path)
+
+/-- `RedirGuard::perform_redirs` for redirections of descriptor 0: left to right, every `perform`
+    first saves what descriptor 0 refers to **at that moment** (pushed onto `saved_fds`), then opens
+    the target onto descriptor 0 (offset 0).  Stops at the first failure (`false`); the redirections
+    performed so far stay recorded. -/
+def performIn : List Rd → List SavedIn → State → List SavedIn × State × Bool
+  | [], saved, s => (saved, s, true)
+  | r :: rs, saved, s =>
+    match rdContent r with
+    | none => (saved, s, false)
+    | some c => performIn rs (saved ++ [stdinDesc s]) (setDesc s { shared := false, data := c, pos := 0 })
+
+/-- `RedirGuard::undo_redirs`: `for SavedFd { original, save } in self.saved_fds.drain(..).rev()` —
+    the saved descriptions are copied back onto descriptor 0 **last saved first**, so that the one
+    copied last is the one saved first: what standard input was before the command -/
+def undoIn (saved : List SavedIn) (s : State) : State := saved.reverse.foldl setDesc s
 
 /-- a simple command: `eval` and `.` start a nested read-eval loop, everything else is a built-in -/
 def stepSimple (ws : List Word) (here : Option (List Char)) (k : List K) (s : State) : List K × State :=
@@ -554,7 +605,7 @@ def stepSrc (text : List Byte) (echoes executed : Bool) (k : List K) (s : State)
                       then s.echo ++ toBytes (toChars (pull (parserOf s) (text.length + 1) [] text).text)
                       else s.echo })
   | _ =>
-    ((unwind k).getD [],
+    (dropGuards k,
      { s with echo := if s.verbose && echoes
                       then s.echo ++ toBytes (toChars (pull (parserOf s) (text.length + 1) [] text).text)
                       else s.echo,
@@ -588,6 +639,12 @@ def step (k : List K) (s : State) : Option (List K × State) :=
     some (k, { s with vars := sv.vars, aliases := sv.aliases, verbose := sv.verbose,
                       portable := sv.portable })
   | .cmd (.neg c) :: k => some (.cmd c :: .negK :: k, s)
+  | .cmd (.redir rs c) :: k =>
+    -- `perform_redirs`, the command, `undo_redirs`; a redirection that fails (`cannot open the
+    -- file`): the command is not run, `$?` = 2, what was redirected so far is undone
+    if (performIn rs [] s).2.2 then some (.cmd c :: .undo (performIn rs [] s).1 :: k, (performIn rs [] s).2.1)
+    else some (k, { undoIn (performIn rs [] s).1 (performIn rs [] s).2.1 with status := 2 })
+  | .undo saved :: k => some (k, undoIn saved s)
   | .negK :: k => some (k, { s with status := if s.status = 0 then 1 else 0 })
 
 /-- run a continuation to its end (`fuel` steps at most; `false` when the fuel ran out) -/
